@@ -167,16 +167,19 @@ func cmdMutant(args []string) int {
 			continue
 		}
 		rep.Finish(core.FinishOpts{VerifDir: verifDir(), Quiet: true, NoWrite: true, Known: known})
+		per := 0
 		for _, k := range rep.ViolatedKeys() {
 			if !kn[k] {
-				res.Keys = append(res.Keys, k)
+				per++
+				if per <= 3 {
+					res.Keys = append(res.Keys, k)
+				} else if per == 4 {
+					res.Keys = append(res.Keys, pr+"/... more")
+				}
 			}
 		}
 	}
 	res.Detected = res.Detected || len(res.Keys) > 0
-	if len(res.Keys) > 12 {
-		res.Keys = append(res.Keys[:12], fmt.Sprintf("... %d more", len(res.Keys)-12))
-	}
 	return emit()
 }
 
